@@ -11,7 +11,7 @@ import ast
 from ..astutil import attr_chain, const_number, product_factors, signed_terms
 from ..entries import enumerate_entries, param_value
 from ..interp import Interp, OBJ, AV, T, E, all_ann
-from ..model import AnalysisIncomplete, METHOD, norm_text, stmt_of
+from ..model import AnalysisIncomplete, METHOD, norm_text, stmt_of, PARAM as PARAM_KIND, BUFFER as BUFFER_KIND
 from ..report import Finding, RuleResult
 from ..symexp import paths_of, is_component
 from ..taint import TaintDomain
@@ -680,9 +680,222 @@ def trunc_norm_rule(ctx):
     return res
 
 
+# ---------------------------------------------------------------------------------------
+# DIST-BCAST: stored parameters broadcast against events of every rank
+# ---------------------------------------------------------------------------------------
+
+
+def bcast_rule(ctx):
+    """DIST-BCAST.  A distribution constructed with an event `shape` of arbitrary rank evaluates
+    log_prob on inputs of shape [N, *shape].  Every element-wise operation that combines the inputs (or
+    something derived from them element-wise) with a parameter / buffer created by the constructor must
+    broadcast for event ranks 1, 2 and 3: the shapes are evaluated symbolically -- inputs [N, s1..sk],
+    a stored tensor by what the constructor built it from (`torch.zeros(shape)`, `.reshape(1, -1)` is
+    [1, s1*..*sk], `.reshape(1, *shape)` is [1, s1..sk]) -- and aligned from the right as torch does.
+    A flattened parameter next to an un-flattened event only lines up for rank 1."""
+    from ..symexp import uwalk
+
+    p = ctx.p
+    res = RuleResult("DIST-BCAST", "parameters and buffers stored by the constructor broadcast against inputs of shape [N, *shape] for event shapes of rank 1, 2 and 3")
+    EW = {"exp", "log", "neg", "abs", "sqrt", "sigmoid", "tanh", "softplus", "square", "pow", "float", "double", "to", "clone", "detach", "reciprocal", "log1p", "expm1"}
+    n_ops = 0
+    reported = set()
+
+    def last(c):
+        f = c.func
+        return f.attr if isinstance(f, ast.Attribute) else (f.id if isinstance(f, ast.Name) else "")
+
+    def prod(dims):
+        dims = tuple(d for d in dims if d != 1)
+        if not dims:
+            return 1
+        return dims[0] if len(dims) == 1 else ("prod", dims)
+
+    def numel(sh):
+        out = []
+        for d in sh:
+            if isinstance(d, tuple) and d[0] == "prod":
+                out.extend(d[1])
+            elif d != 1:
+                out.append(d)
+        return tuple(sorted(map(str, out)))
+
+    def reshape(sh, args, event, shape_names):
+        """shape after .reshape(args) / .view(args) of a tensor of known shape"""
+        dims = []
+        for a in args:
+            inner = a.value if isinstance(a, ast.Starred) else a
+            t = norm_text(inner)
+            if t in shape_names:
+                dims.extend(event)
+            elif const_number(inner) is not None:
+                dims.append(int(const_number(inner)))
+            else:
+                return None
+        if dims.count(-1) > 1:
+            return None
+        if -1 in dims:
+            known = [d for d in dims if d != -1]
+            total = list(numel(sh))
+            for d in known:
+                for x in ([d] if not (isinstance(d, tuple)) else list(d[1])):
+                    if x != 1:
+                        if str(x) not in total:
+                            return None
+                        total.remove(str(x))
+            rest = prod(tuple(total)) if total else 1
+            dims = [rest if d == -1 else d for d in dims]
+        return tuple(dims)
+
+    def broadcast(a, b):
+        out = []
+        for i in range(1, max(len(a), len(b)) + 1):
+            x = a[-i] if i <= len(a) else 1
+            y = b[-i] if i <= len(b) else 1
+            if x == y or y == 1:
+                out.append(x)
+            elif x == 1:
+                out.append(y)
+            elif x is None or y is None:
+                out.append(None)
+            else:
+                return ("mismatch", x, y, i)
+        return tuple(reversed(out))
+
+    def show(sh):
+        def d(x):
+            return "*".join(map(str, x[1])) if isinstance(x, tuple) else str(x)
+
+        return "[" + ", ".join(d(x) for x in sh) + "]"
+
+    for cls in p.all_classes():
+        if not any(c.name == "Distribution" for c in cls.repo_mro()) or cls.name == "Distribution":
+            continue
+        init = cls.methods.get("__init__")
+        if init is None:
+            continue
+        pnames = [a for a, _ in init.params()]
+        if "shape" not in pnames:
+            continue
+        shape_names = {"shape", "self._shape", "torch.Size(shape)"}
+        table = p.attrs(cls)
+        for k in (1, 2, 3):
+            event = tuple("s%d" % i for i in range(1, k + 1))
+
+            def ctor_shape(e, depth=0):
+                if e is None or depth > 6:
+                    return None
+                if isinstance(e, ast.Call):
+                    nm = last(e)
+                    f = e.func
+                    recv = f.value if isinstance(f, ast.Attribute) and not (isinstance(f.value, ast.Name) and f.value.id in ("torch", "np", "nn")) else None
+                    if nm == "Parameter" and e.args:
+                        return ctor_shape(e.args[0], depth + 1)
+                    if nm in ("zeros", "ones", "randn", "rand", "empty", "full") and recv is None and e.args:
+                        args = e.args[:1] if nm == "full" else e.args
+                        if len(args) == 1 and isinstance(args[0], (ast.Tuple, ast.List)):
+                            args = args[0].elts
+                        return reshape((), list(args), event, shape_names) if not any(const_number(a) == -1 for a in args) else None
+                    if nm in ("reshape", "view") and recv is not None:
+                        base = ctor_shape(recv, depth + 1)
+                        args = e.args[0].elts if len(e.args) == 1 and isinstance(e.args[0], (ast.Tuple, ast.List)) else e.args
+                        return reshape(base, list(args), event, shape_names) if base is not None else None
+                    if nm in ("flatten",) and recv is not None and not e.args:
+                        base = ctor_shape(recv, depth + 1)
+                        return (prod(base),) if base is not None else None
+                    if nm in EW and recv is not None:
+                        return ctor_shape(recv, depth + 1)
+                if isinstance(e, ast.BinOp):
+                    for side in (e.left, e.right):
+                        r = ctor_shape(side, depth + 1)
+                        if r is not None and const_number(e.right if side is e.left else e.left) is not None:
+                            return r
+                return None
+
+            stored = {}
+            for nm, ai in table.items():
+                if ai.kind in ("PARAM", "BUFFER") or getattr(ai, "kind", None) in (PARAM_KIND, BUFFER_KIND):
+                    v = ai.extra if ai.kind == PARAM_KIND and isinstance(ai.extra, ast.AST) else getattr(ai, "value", None)
+                    shp = ctor_shape(v if isinstance(v, ast.AST) else None)
+                    if shp is not None:
+                        stored[nm] = shp
+            if not stored:
+                continue
+            for mname in ("_log_prob", "_sample", "_mean"):
+                fi = cls.methods.get(mname)
+                if fi is None:
+                    continue
+                xname = fi.params()[0][0] if fi.params() else None
+
+                def sh(e, depth=0):
+                    """shape of an expression, None when this rule does not model it"""
+                    if depth > 40:
+                        return None
+                    if isinstance(e, ast.Name) and mname == "_log_prob" and e.id == xname:
+                        return ("N",) + event
+                    if isinstance(e, ast.Attribute) and isinstance(e.value, ast.Name) and e.value.id == "self" and e.attr in stored:
+                        return stored[e.attr]
+                    if isinstance(e, ast.UnaryOp):
+                        return sh(e.operand, depth + 1)
+                    if isinstance(e, ast.Call):
+                        nm = last(e)
+                        f = e.func
+                        recv = f.value if isinstance(f, ast.Attribute) and not (isinstance(f.value, ast.Name) and f.value.id in ("torch", "np", "F")) else None
+                        if nm in ("reshape", "view") and recv is not None:
+                            base = sh(recv, depth + 1)
+                            args = e.args[0].elts if len(e.args) == 1 and isinstance(e.args[0], (ast.Tuple, ast.List)) else e.args
+                            return reshape(base, list(args), event, shape_names) if base is not None else None
+                        if nm in EW:
+                            arg = recv if recv is not None else (e.args[0] if e.args else None)
+                            return sh(arg, depth + 1) if arg is not None else None
+                        return None
+                    if isinstance(e, ast.BinOp) and isinstance(e.op, (ast.Add, ast.Sub, ast.Mult, ast.Div, ast.Pow)):
+                        if const_number(e.right) is not None:
+                            return sh(e.left, depth + 1)
+                        if const_number(e.left) is not None:
+                            return sh(e.right, depth + 1)
+                        a, b = sh(e.left, depth + 1), sh(e.right, depth + 1)
+                        if a is None or b is None:
+                            return None
+                        r = broadcast(a, b)
+                        if isinstance(r, tuple) and r and r[0] == "mismatch":
+                            raise _Bcast(e, a, b)
+                        return r
+                    return None
+
+                seen = set()
+                for path in paths_of(fi.node):
+                    exprs = ([path.ret] if path.ret is not None else []) + [part for eff in path.effects for part in eff[2:] if isinstance(part, ast.AST)]
+                    for ex in exprs:
+                        for c in uwalk(ex):
+                            if not isinstance(c, ast.BinOp) or id(c) in seen:
+                                continue
+                            seen.add(id(c))
+                            try:
+                                r = sh(c)
+                            except _Bcast as b:
+                                key = (cls.name, mname, k, norm_text(b.node)[:80])
+                                if key not in reported:
+                                    reported.add(key)
+                                    res.fail(Finding("DIST-BCAST", fi.module, fi.qualname, fi.node, "for an event shape of rank %d, `%s` combines a tensor of shape %s with one of shape %s: they do not broadcast (the operation raises for every input); a parameter stored flattened has to be viewed as [1, *shape] first" % (k, norm_text(b.node)[:70], show(b.a), show(b.b)), construct="broadcast of stored parameters in %s.%s (rank %d)" % (cls.name, mname, k)))
+                                continue
+                            if r is not None:
+                                n_ops += 1
+    if n_ops < 2 and not res.findings:
+        raise AnalysisIncomplete("DIST-BCAST: %d element-wise combinations of inputs and stored tensors evaluated (< 2)" % n_ops)
+    res.ok("%d element-wise combinations of inputs / stored tensors broadcast for event ranks 1-3" % n_ops, nontrivial=bool(n_ops))
+    return res
+
+
+class _Bcast(Exception):
+    def __init__(self, node, a, b):
+        self.node, self.a, self.b = node, a, b
+
+
+
 register(
     "C05",
-    [res_rule, null_rule, dist_terms_rule, base_terms_rule, layout_rule, trunc_norm_rule],
+    [res_rule, null_rule, dist_terms_rule, base_terms_rule, layout_rule, trunc_norm_rule, bcast_rule],
     "Interface-level necessary conditions for every density-returning object. RES: abstract interpretation of the public "
     "log_prob / sample / sample_and_log_prob / mean of every Distribution subclass (and the MADE mixture): every self-attribute "
     "read resolves, and no entry point returns a function object. NULL-1: values originating from parameters whose default is "
